@@ -16,6 +16,7 @@ from harness import hyp
 from harness.runner import Result
 
 ID = "C05"
+OPTIMIZED_PASS = True      # the whole search runs once more under python -OO (harness/runner.py)
 LEVEL = "exploration"
 RULE = ("exhaustive part: every (width, initial value, hi, lo, written value) tuple is one case "
         "(distinct by construction; non-trivial = the write is accepted and changes bits, or is an "
